@@ -78,6 +78,17 @@ Theorem rebuild_all_sympy_fields : forall c ci args attrs,
   func gen_table (Unev c args attrs) (args_of (Unev c args attrs)) = Unev c args attrs.
 Proof. exact l_func_args. Qed.
 
+(* keyword construction stores the arguments in DECLARATION order: permuting the caller's keyword list
+   (distinct keywords) does not change the instance, for every class, prefix of positional arguments and defaults *)
+Theorem keyword_order_irrelevant : forall c pos kw kw',
+  NoDup (map fst kw) -> Permutation.Permutation kw kw' -> new_kw c pos kw = new_kw c pos kw'.
+Proof. exact l_kw_order. Qed.
+
+Example keyword_order_example :
+  new_kw cBZ [] [("n_events", VE (sy "n")); ("beta", VE (sy "b"))] = Unev cBZ [sy "b"; sy "n"] [] /\
+  new_kw cBZ [VE (sy "b")] [("n_events", VE (sy "n"))] = Unev cBZ [sy "b"; sy "n"] [].
+Proof. exact ex_kw_order. Qed.
+
 (* non-vacuity *)
 Example hypotheses_satisfiable :
   avoids gen_table w_num_map = true /\ images_ok gen_table w_num_map = true /\ wfi gen_table w_nested = true /\
@@ -108,6 +119,8 @@ Print Assumptions eq_iff_equal_when_conversion_injective.
 Print Assumptions conversion_injective_example.
 Print Assumptions content_conversion_collision.
 Print Assumptions rebuild_all_sympy_fields.
+Print Assumptions keyword_order_irrelevant.
+Print Assumptions keyword_order_example.
 Print Assumptions hypotheses_satisfiable.
 Print Assumptions guard_condition_needed.
 Print Assumptions all_sympy_class_exists.
